@@ -21,6 +21,10 @@ CLAIMED = {
          "Lean 4 theorem (decide +kernel over the full table) + exhaustive correspondence", "9/C08"),
  "C18": ("type/class/qtype/qclass round trips, IANA mnemonics, no aliasing, exact matching and faithful type codes proved for every code; correspondence exhaustive over all 65536 codes and the full matching matrices.",
          "Lean 4 theorem (case analysis over the conversion tables) + exhaustive correspondence", "9/C18"),
+ "C05": ("parse_respects_framing, cursor_after_record/question, overrun_rejected/overrun_err, rdata_local proved for every byte string against an independent envelope walker (Spec.walk): entries one-to-one and in order, owner decoded by the RFC relation at the entry's offset, fixed fields equal, cursor after every record = end of its RDLENGTH, RDATA independent of later bytes.",
+         "Lean 4 theorem (refinement to an independent envelope walker) + differential correspondence", "9/C05"),
+ "C17": ("name_new_iff, label_new_iff, display_new, subdomain_iff, without_iff, link_local_iff proved for all texts/names against the label grammar written from the property; correspondence bounded-exhaustive.",
+         "Lean 4 theorem (equivalence with a declarative grammar) + bounded-exhaustive correspondence", "9/C17"),
 }
 PENDING = {f"C{n:02d}": "check not built yet (implementation of DESIGN.md in progress); will be claimed at level proof" for n in range(1, 21)}
 try:
